@@ -542,6 +542,7 @@ func (proxy *Server) addHandler(w http.ResponseWriter, r *http.Request) {
 	q := r.URL.Query()
 	if q.Get("only-hash") == "true" {
 		ipfsErrorResponder(w, "only-hash is not supported when adding to cluster", -1)
+		return
 	}
 
 	unpin := q.Get("pin") == "false"
